@@ -602,6 +602,26 @@ def oracle(op, arg, res, fail):
     elif op == 'crc':
         if res['ok'] != (zlib.crc32(arg, 0xffffffff) ^ 0xffffffff):
             fail('crc_mismatch', op, arg, res['ok'], 'CRC-32 (poly 0xEDB88320, init 0, no final xor)')
+    elif op == 'kex.parse':
+        # an independent RFC 4253 section 7.1 reader: the ten name-lists in wire order are kex, host key, encryption c->s, encryption s->c, MAC c->s, MAC s->c,
+        # compression c->s, compression s->c, languages c->s, languages s->c
+        pos, lists, ok = 16, [], len(arg) >= 16
+        for _ in range(10):
+            if not ok or pos + 4 > len(arg):
+                ok = False
+                break
+            n = struct.unpack('>I', arg[pos:pos + 4])[0]
+            if pos + 4 + n > len(arg):
+                ok = False
+                break
+            lists.append([x.decode('utf-8', 'replace') for x in arg[pos + 4:pos + 4 + n].split(b',')])
+            pos += 4 + n
+        if ok and pos + 5 <= len(arg):
+            want = dict(zip(('kex', 'key', 'encC', 'encS', 'macC', 'macS', 'compC', 'compS', 'langC', 'langS'), lists))
+            got = {k: res['ok'].get(k) for k in want}
+            if got != want or res['ok'].get('cookie') != arg[:16].hex():
+                bad = [k for k in want if got[k] != want[k]]
+                fail('kexinit_fields_misassigned', op, arg, {k: got[k] for k in bad[:3]}, {k: want[k] for k in bad[:3]})
     elif op == 'kex.reencode':
         # re-encoding a decoded message yields the same bytes (canonical inputs: no trailing data, bool in {0,1}, ASCII)
         try:
